@@ -62,6 +62,7 @@ type result struct {
 	calib       int64
 	ndShort     int64
 	ndExtra     int64
+	sample      string // a history that was re-executed through the exported API and matched
 }
 
 // The visited set, the node table (parent pointer + operation, for shortest-history reconstruction) and the
@@ -228,6 +229,7 @@ func (e *explorer) run(maxStates int64, par int) *result {
 				x := e.ctxs[wk]
 				var ops []op
 				var seenBuf []cand
+				var saved stats
 				for {
 					ci := int(atomic.AddInt64(&next, 1))
 					if ci >= nChunks {
@@ -257,6 +259,10 @@ func (e *explorer) run(maxStates int64, par int) *result {
 								cd := &seen[len(seen)-1]
 								cd.w = fs.w
 								cd.v = nil
+								randomised := o.K == opWsPick || o.K == opWriteOKEager
+								if randomised {
+									saved = x.st // repeated draws of the same outcome must not count twice
+								}
 								nd, outc, _ := x.apply(&cd.w, o, false)
 								cd.out = outc
 								if trial == 0 {
@@ -271,12 +277,6 @@ func (e *explorer) run(maxStates int64, par int) *result {
 										}
 									}
 								}
-								if trial < 64*want && len(seen)-1 < want {
-									trans[wk]++
-								} else {
-									x.calib++
-									x.st.ops[o.K]--
-								}
 								dup := false
 								for k := 0; k < len(seen)-1; k++ {
 									if seen[k].out == outc && seen[k].w == cd.w {
@@ -286,8 +286,11 @@ func (e *explorer) run(maxStates int64, par int) *result {
 								}
 								if dup {
 									seen = seen[:len(seen)-1]
+									x.st = saved
+									x.calib++
 									continue
 								}
+								trans[wk]++ // transitions = distinct (state, operation, outcome) triples
 								if len(x.viols) > 0 {
 									cd.v = append([]violation{}, x.viols...)
 								}
@@ -371,6 +374,7 @@ func (e *explorer) run(maxStates int64, par int) *result {
 				res.replaySteps += steps
 				if ok {
 					res.replays++
+					res.sample = traceString(tr)
 					if w != sh.next[i].w {
 						core.HarnessError("C09: state reached by reload-based search differs from pure API replay; config %s; history %s", c, traceString(tr))
 					}
@@ -494,16 +498,16 @@ func buildConfigs(thorough bool) []*config {
 		}
 	} else {
 		ws3 := []wsCombo{{0, 0}, {1, 0}, {1, 2}, {1, 3}, {2, 0}, {2, 2}, {2, 3}}
-		ws4 := []wsCombo{{0, 0}, {1, 0}, {1, 2}, {1, 4}, {2, 0}, {2, 2}, {2, 4}}
+		ws4 := []wsCombo{{0, 0}, {1, 0}, {1, 2}, {1, 4}, {2, 4}}
 		for _, cl := range [][]bool{{N}, {F}} {
 			for _, w := range ws3 {
 				for _, m := range modes(l3a, l3b, true) {
-					add(cl, m.l, w, m.seq, 2, 8_000_000)
+					add(cl, m.l, w, m.seq, 2, 4_000_000) // fix except fast peer x 2 sources x rarest (10.7 M states)
 				}
 			}
 			for _, w := range ws4 {
 				for _, m := range modes(l4a, l4b, true) {
-					add(cl, m.l, w, m.seq, 2, 4_000_000)
+					add(cl, m.l, w, m.seq, 2, 1_500_000)
 				}
 			}
 		}
@@ -563,15 +567,17 @@ func buildConfigs(thorough bool) []*config {
 func TestC09(t *testing.T) {
 	logger.Disable()
 	rep := core.NewReport("C09", "picker", "model_checking")
-	rep.Rule = "explicit-state BFS with de-duplication over the real piecepicker, per configuration (peer classes fast/non-fast x pieces over a 2-file layout x 0..2 web-seed sources x rarest/sequential x end-game limit 1..2), " +
-		"from every resume bitfield, until the frontier is empty; operations = the torrent's picker-touching handlers (connect, disconnect, have, have-all, allowed-fast, choke, unchoke, snub, PickFor, piece complete, write ok (deferred / in-place follow-up picks), hash failure, PickWebseed, web-seed piece complete / deliver / advance / error). " +
-		"A state = shadow swarm model + full private dump of the picker; distinct = canonical key modulo renaming of same-class peers; every randomised web-seed range outcome is enumerated."
+	rep.Rule = "explicit-state BFS with de-duplication over the real piecepicker, one search per configuration (peer slots fast/non-fast x 3..4 pieces over a 2-file layout x 0..2 web-seed sources x per-request web-seed range 1 (real value) or scaled x rarest/sequential x end-game limit 1..2), " +
+		"started from every resume bitfield, run until the frontier is empty or the configuration's fixed state cap; operations = the torrent's picker-touching handlers with the torrent's preconditions (connect, disconnect=closePeer, have, have-all/bitfield, allowed-fast, choke, unchoke, snub, PickFor/startSinglePieceDownloader, last block received, write ok with deferred or in-place follow-up picks (handlePieceWriteDone incl. WebseedStopAt and the RequestedPeers loop), hash failure, PickWebseed/startWebseedDownloader, web-seed piece complete / result delivered / current++ / error). " +
+		"State = shadow swarm model + full private dump of the picker; distinct = canonical key modulo renaming of same-class peers; transitions = distinct (state, operation, outcome) triples, every outcome of the randomised web-seed range choice included; oracles run after every transition."
 	rep.Assumptions = []string{
-		"the web-seed downloader goroutine is modelled (current index, unbuffered result hand-over, End re-read at piece completion) from urldownloader.Run; the real HTTP loop is not executed",
-		"the resource manager may delay a granted PickFor arbitrarily (session.ram is always set), so PickFor may happen at any time for any connected peer",
-		"state de-duplication uses the MD5 of the canonical serialisation (collision probability negligible); Having/Snubbed/Choked are keyed as sets because the picker only tests membership/size of them",
-		"the randomised PickWebseed choice is enumerated by repetition until as many distinct outcomes were seen as there are unreserved missing pieces (<= 64 tries per expected outcome)",
-		"bounds: <= 3 peers, <= 4 pieces, <= 2 sources; larger swarms are not covered",
+		"the web-seed downloader goroutine is modelled (current index, unbuffered result hand-over, End re-read at piece completion, overshoot by one piece after a late truncation) from urldownloader.Run; the real HTTP loop is not executed",
+		"the resource manager may delay a granted PickFor arbitrarily (session.ram is always set), so PickFor may happen at any time for any connected peer; the last block of a piece may arrive while the peer chokes (blocks in flight)",
+		"web-seed ranges longer than one piece need >= 40 pieces in the real picker (len/20); they are reproduced on 3..4 pieces by the in-package hook VerifSetMaxWebseedPieces (configurations marked range<=k)",
+		"state de-duplication uses the MD5 of the canonical serialisation (collision probability negligible); Having/Snubbed/Choked (and the allowed-fast list in sequential mode) are keyed as sets because the picker only tests membership/size of them; all other orders (Requested, the two sort arrays, rarest-mode allowed-fast list) are part of the key",
+		"the randomised PickWebseed choice is enumerated by repetition until as many distinct outcomes were seen as an independent BEP 19 gap model predicts (<= 64 tries per expected outcome); every 61st choice is over-sampled to calibrate that model",
+		"bounds: <= 3 peer slots (a slot can be re-used by a new peer after a disconnect), <= 4 pieces, <= 2 sources, allowed-fast sets of <= 2 pieces; configurations above their state cap are explored breadth-first up to the cap only (listed in caps_hit)",
+		"reload-based successor computation is cross-checked: every 20011th new state and the first violation of every key are re-executed from a fresh picker through the exported API only and must give the identical state / the same violation",
 	}
 	if pf := os.Getenv("VERIF_C09_PROF"); pf != "" {
 		f, _ := os.Create(pf)
@@ -608,6 +614,7 @@ func TestC09(t *testing.T) {
 		WallS       float64 `json:"wall_s"`
 	}
 	var rows []row
+	var histories []map[string]string
 	verbose := os.Getenv("VERIF_C09_VERBOSE") != ""
 	for _, c := range cfgs {
 		e := &explorer{c: c, rep: rep, seen: seen, seenMu: &mu}
@@ -620,8 +627,8 @@ func TestC09(t *testing.T) {
 		rep.Transitions += r.transitions
 		rep.TracesImpl += r.replays
 		total.add(&r.st)
-		rep.Add("replay_steps_pure_api", r.replaySteps)
-		rep.Add("randomised_choice_calibration_trials", r.calib)
+		rep.Add("replay_steps_pure_api_count_varies_between_runs", r.replaySteps)
+		rep.Add("randomised_choice_repeated_draws_count_varies_between_runs", r.calib)
 		rep.Add("randomised_choice_outcomes_not_all_seen", r.ndShort)
 		if r.ndExtra > 0 {
 			rep.Add("randomised_choice_more_outcomes_than_modelled", r.ndExtra)
@@ -634,6 +641,9 @@ func TestC09(t *testing.T) {
 			fix++
 		}
 		rows = append(rows, row{c.String(), r.states, r.transitions, r.depth, !r.capped, r.wall.Seconds()})
+		if r.sample != "" {
+			histories = append(histories, map[string]string{"config": c.String(), "history_cross_checked_by_pure_api_replay": r.sample})
+		}
 		if verbose {
 			fmt.Printf("cfg %3d %-90s states=%9d trans=%11d depth=%3d fix=%v %.1fs\n", c.ID, c.String(), r.states, r.transitions, r.depth, !r.capped, r.wall.Seconds())
 		}
@@ -667,8 +677,13 @@ func TestC09(t *testing.T) {
 	rep.Extra["cancel_by_write_done"] = total.cancelByWriteDone
 	rep.Extra["terminal_states"] = total.terminal
 	for i, r := range rows {
-		if i%(len(rows)/8+1) == 0 {
-			rep.Sample(10, r)
+		if i%(len(rows)/6+1) == 0 {
+			rep.Sample(12, r)
+		}
+	}
+	for i, h := range histories {
+		if i%(len(histories)/5+1) == 0 {
+			rep.Sample(12, h)
 		}
 	}
 	// non-vacuity
